@@ -431,9 +431,13 @@ func genC09(g *Rng, tier string, emit func(Op)) {
 					}
 				}
 				rec(nil)
-				if len(seqs) > 60 && tier != "thorough" {
+				limit := 60
+				if tier == "thorough" {
+					limit = 400
+				}
+				if len(seqs) > limit {
 					g.r.Shuffle(len(seqs), func(i, j int) { seqs[i], seqs[j] = seqs[j], seqs[i] })
-					seqs = seqs[:60]
+					seqs = seqs[:limit]
 				}
 				n := 0
 				for _, seq := range seqs {
